@@ -13,8 +13,16 @@ import (
 	"ergo.services/ergo/net/edf"
 )
 
-func (h *handshake) Start(node gen.NodeHandshake, conn net.Conn, options gen.HandshakeOptions) (gen.HandshakeResult, error) {
-	var result gen.HandshakeResult
+func (h *handshake) Start(node gen.NodeHandshake, conn net.Conn, options gen.HandshakeOptions) (result gen.HandshakeResult, err error) {
+	if lib.Recover() {
+		// the messages are made by the peer: whatever is wrong with them must
+		// not take the node down (this runs in the acceptor's/dialer's goroutine)
+		defer func() {
+			if r := recover(); r != nil {
+				err = fmt.Errorf("malformed handshake: %v", r)
+			}
+		}()
+	}
 	result.HandshakeVersion = h.Version()
 
 	salt := lib.RandomString(64)
